@@ -12,6 +12,7 @@ import numpy as np
 
 from rv import core, zoo, monitors
 
+ANCHORS = ['clustering_gmm', 'get_transform_fxn', 'selection_std', 'fit_beads_autofluorescence']      # functions the property is anchored in: never entered => inconclusive
 LEVEL = 'exploration'
 LEVEL_TEXT = 'Ground-truth oracle on synthetic bead samples (known partition and law) for the whole calibration workflow in two containers, plus permutation/reseed metamorphic runs and multi-channel reordered conversion; failures inside the documented equal-count-seeding mechanism are a listed known finding, everything outside it must hold strictly. Exploration: reach comes from sample diversity, not enumeration.'
 TECHNIQUE = 'runtime contract on the calibration workflow with ground-truth oracle (known partition and law) + permutation/reseed metamorphic runs'
